@@ -334,6 +334,35 @@ let execcnt_cmd (toks : string list) : string option =
        | [] -> None)
   | _ -> None
 
+(* execcnttsm d per h b mode stop nf f.. ns snums nt tnums : counters of the target/source run *)
+let execcnttsm_cmd (toks : string list) : string option =
+  match toks with
+  | "execcnttsm" :: d :: per :: h :: b :: mode :: stop :: nf :: rest ->
+      let nf = int_of_string nf in
+      let masks = take nf rest in
+      let rest = drop nf rest in
+      let di = int_of_string d in
+      (match rest with
+       | ns :: r1 ->
+           let ns_i = int_of_string ns in
+           let snums = take (ns_i * di) r1 in
+           (match drop (ns_i * di) r1 with
+            | nt :: tnums ->
+                (match parse_tree ("tree" :: d :: per :: h :: b :: mode :: ns :: snums),
+                       parse_tree ("tree" :: d :: per :: h :: b :: mode :: nt :: tnums) with
+                 | Some (_, perb, _, ts, _, _), Some (_, _, _, tt, _, _) ->
+                     let dn = nat_of_int di in
+                     let traces = List.map (fun f -> execute_tsm dn perb (z_of_string stop) (z_of_string f) ts tt) masks in
+                     let ks = List.map count_trace traces in
+                     let all = List.concat traces in
+                     Some (dump_tree ts ^ " || " ^ dump_tree tt ^ " || " ^ String.concat " ; " (List.map call_str all)
+                           ^ " || K " ^ String.concat " | " (List.map cnt_str ks)
+                           ^ " || F " ^ cnt_str (merge_counters ks) ^ " || B " ^ cnt_str (merge_counters (List.rev ks)))
+                 | _ -> None)
+            | [] -> None)
+       | [] -> None)
+  | _ -> None
+
 (* ---- direct P2P on SpecFloat ---- *)
 let p2p_cmd (toks : string list) : string option =
   match toks with
@@ -400,7 +429,7 @@ let execpertsm_cmd (toks : string list) : string option =
        | [] -> None)
   | _ -> None
 
-let handlers : (string list -> string option) list ref = ref [loc_cmd; execpertsm_cmd; index_cmd; tree_cmd; exec_cmd; exectsm_cmd; execper_cmd; execcnt_cmd; mem_cmd; p2p_cmd]
+let handlers : (string list -> string option) list ref = ref [loc_cmd; execpertsm_cmd; index_cmd; tree_cmd; exec_cmd; exectsm_cmd; execper_cmd; execcnttsm_cmd; execcnt_cmd; mem_cmd; p2p_cmd]
 
 let () =
   let ic = open_in Sys.argv.(1) in
